@@ -110,11 +110,16 @@ def run(tier):
     run = Run(PROP, tier, 'proof')
     spec_selfcheck()
     h = build()
+    nbase = len(h.specs)
+    mono = h.monomorphise(['i32', 'u8', 'i64', 'f32', 'f64']) if tier == 'thorough' else []
     S, inv, meta = facts.extract(PROP, h.src())
     for w, msg in meta.get('dropped', {}).items():
         run.ob('%s:%s:api-missing' % (PROP, w), False, rule='api-present', expected='wrapper compiles', found=msg)
     check_specs(run, S, h)
     run.floor('roots', len(run.roots), 208)
+    if mono:
+        run.floor('monomorphic_roots', len([n for n in mono if n in run.roots]), len(mono))
+        run.notes['monomorphic_instantiations'] = {'types': ['i32', 'u8', 'i64', 'f32', 'f64'], 'roots': len(mono)}
     return run.finish(
         explanation='Every vector operation of dimension 1-4 is summarised from its type-checked MIR for an abstract scalar S: BaseNum and each output component is compared, as a polynomial over the input components, with the textbook definition (component-wise operators in all operand forms, ElementWise, dot, magnitude2, sum/product, cross via Levi-Civita, perp_dot, lerp, unit vectors, zero/is_zero). The algebraic laws in the statement follow from these definitions and are verified once on the spec side.',
         trusted_base=['rustc nightly type checking / trait resolution / MIR construction', 'mirsum abstract interpreter and its scalar-operation models', 'rules/algebra.py normal forms', 'real-number (field) semantics of + - * / on the abstract scalar; % uninterpreted'],
